@@ -402,8 +402,15 @@ impl<'u> Run<'u> {
                     k => Some(k.to_string()),
                 };
                 let with_fp = integ != "corrupt" && (self.seed + self.resp_cls_toggle) % 3 == 0;
+                // "corrupt" = an integrity attribute that validates under no key: a flipped HMAC bit, or an
+                // attribute of an illegal length (which the parser lets through and validation must refuse)
+                let corrupt_style = if integ == "corrupt" { (self.seed + self.resp_cls_toggle) % 6 } else { 0 };
                 let mut bytes;
-                if self.seal_ext {
+                if corrupt_style >= 1 {
+                    let (sha256, n) = [(false, 16usize), (false, 24), (true, 12), (true, 36), (true, 18)][(corrupt_style - 1) as usize];
+                    let junk: Vec<u8> = (0..n).map(|i| (i as u8).wrapping_mul(37).wrapping_add(self.seed as u8)).collect();
+                    bytes = ext::append_raw_integrity(b.build(), sha256, &junk);
+                } else if self.seal_ext {
                     // sealed by the harness itself with RustCrypto primitives (not by the code under test)
                     bytes = b.build();
                     if let Some(k) = &signer_name {
@@ -427,7 +434,7 @@ impl<'u> Run<'u> {
                     }
                     bytes = b.build();
                 }
-                if integ == "corrupt" {
+                if integ == "corrupt" && corrupt_style == 0 {
                     // flip one bit inside the value of the integrity attribute that will be checked (the last one)
                     let n = bytes.len();
                     let k = 1 + (self.seed as usize + self.resp_cls_toggle as usize) % 16;
